@@ -223,7 +223,12 @@ func receiveFromTransport(ctx context.Context, c *channel, done chan<- struct{})
 				// If a session is received while established,
 				// the receiver goroutine can stop.
 				if c.client {
-					c.setStateWLock(e.State)
+					if e.State.Step() < c.State().Step() {
+						// a session moving backwards ends the session; it must not crash the process
+						c.setStateWLock(SessionStateFailed)
+					} else {
+						c.setStateWLock(e.State)
+					}
 				}
 				return
 			}
